@@ -14,6 +14,6 @@ def run(ctx):
     n = 80 if ctx.tier == "quick" else 1500
     fams = [("gen", "gen.p1", n), ("gen", "gen.p2", n), ("gen", "gen.p2b1", n), ("gen", "gen.idem1", n),
             lambda: pc.family_faults(False, ctx.seed), lambda: pc.family_faults(True, ctx.seed),
-            lambda: pc.family_gates(False), lambda: pc.family_gates(True), pc.family_retry0]
+            lambda: pc.family_gates(False), lambda: pc.family_gates(True), pc.family_retry0, lambda: pc.family_overflow(False), lambda: pc.family_overflow(True)]
     mc = ["MCProducer.small.cfg"] if ctx.tier == "quick" else ["MCProducer.quick.cfg", "MCProducer.p2.cfg"]
     return pc.check(ctx, "C02", fams, mc)
